@@ -22,7 +22,7 @@ const MONO_INDEPENDENT: [&str; 10] = ["pi", "theta", "s", "d-tajima", "d-fu-li",
 const SWAP_INVARIANT: [&str; 6] = ["f2", "fst", "pi-xy", "king", "r0", "r1"];
 const SCALE_INVARIANT: [&str; 7] = ["f2", "f3", "f4", "fst", "king", "r0", "r1"];
 const SCALE_LINEAR: [&str; 5] = ["sum", "s", "pi", "pi-xy", "theta"];
-const SCALES: [f64; 8] = [2.0, 0.5, 3.0, 1e-3, 1e6, 1e10, 1e15, 1e-12];
+const SCALES: [f64; 12] = [2.0, 0.5, 3.0, 1e-3, 1e6, 1e10, 1e15, 1e-12, 1e-18, 1e-30, 1e30, 0.75];
 
 fn stat(name: &str, x: &RefArray) -> Result<f64, String> {
     let scs = scs_from_ref(x);
@@ -326,7 +326,7 @@ fn eval_cli(x: &RefArray, scratch: &Scratch) -> (u64, Vec<Viol>) {
 
 pub fn run(tier: Tier) -> i32 {
     let mut rep = Report::new("C14", tier, "exploration");
-    rep.rule = "relations between two evaluations of the implementation, each on every (shape, value set): f3/f4 = linear combinations of f2 of the two-population marginals (real marginalize + normalize); stat(fold_0 x) = stat(x) for the 12 listed statistics; independence of the two monomorphic cells (values {0, 1, 1000, 1e17, 1e150}: also values next to which the polymorphic mass vanishes in floating point) for all but sum/f2/f3/f4; population swap for f2, Fst, pi_xy, KING, R0, R1; scaling by c in {2, 1/2, 3, 1e-3, 1e6, 1e10, 1e15, 1e-12} (totals beyond 1e9 and 2^53 and far below one). Shapes: 1-D n+1 = 3..12, 2-D {2..6}^2, 3-D {2..4}^3, 4-D {2,3}^4, always including unequal lengths, plus seven spectra of 1 030 .. 77 520 entries (1-D beyond 1 024, 70x65, 19x17x15, 45x41x39, 19x17x16x15); value sets: every basis spectrum, every two-cell spectrum (small shapes), a ramp and a powers-of-two spectrum. L2: `sfs stat` with all admissible statistics in one -s list vs each alone, `sfs fold --fill zero | sfs stat`, scaled inputs. Non-trivial = unequal axis lengths or a non-basis spectrum.".into();
+    rep.rule = "relations between two evaluations of the implementation, each on every (shape, value set): f3/f4 = linear combinations of f2 of the two-population marginals (real marginalize + normalize); stat(fold_0 x) = stat(x) for the 12 listed statistics; independence of the two monomorphic cells (values {0, 1, 1000, 1e17, 1e150}: also values next to which the polymorphic mass vanishes in floating point) for all but sum/f2/f3/f4; population swap for f2, Fst, pi_xy, KING, R0, R1; scaling by c in {2, 1/2, 3/4, 3, 1e-3, 1e6, 1e10, 1e15, 1e-12, 1e-18, 1e-30, 1e30} (totals beyond 1e9 and 2^53 and far below one). Shapes: 1-D n+1 = 3..12, 2-D {2..6}^2, 3-D {2..4}^3, 4-D {2,3}^4, always including unequal lengths, plus one ramp spectrum for every one-axis size from 13 to 400 entries and six two-axis shapes with totals around 100, and seven spectra of 1 030 .. 77 520 entries (1-D beyond 1 024, 70x65, 19x17x15, 45x41x39, 19x17x16x15); value sets: every basis spectrum, every two-cell spectrum (small shapes), a ramp and a powers-of-two spectrum. L2: `sfs stat` with all admissible statistics in one -s list vs each alone, `sfs fold --fill zero | sfs stat`, scaled inputs. Non-trivial = unequal axis lengths or a non-basis spectrum.".into();
     let mut shp: Vec<Vec<usize>> = (3..=12).map(|n| vec![n]).collect();
     shp.extend(shapes(2, 2, tier.pick(5, 6), usize::MAX).into_iter().filter(|s| s.len() == 2));
     shp.extend(shapes(3, 2, tier.pick(3, 4), usize::MAX).into_iter().filter(|s| s.len() == 3));
@@ -336,6 +336,14 @@ pub fn run(tier: Tier) -> i32 {
         let cells: usize = s.iter().product();
         let pairs = cells <= tier.pick(12, 20);
         jobs.extend(value_sets(s, pairs));
+    }
+    // every one-axis size from 13 to 400 entries with one ramp spectrum each (where a comparison with
+    // half the total, a table limit or a rounding of the size decides something, it decides it here)
+    for n in 13..=400usize {
+        jobs.push(("ramp-every-size".to_string(), RefArray::from_fn(&[n], |f, _| ((f * 13) % 31 + 1) as f64 + if f % 7 == 0 { 0.5 } else { 0.0 })));
+    }
+    for (a, b) in [(41usize, 59usize), (30, 70), (50, 50), (49, 51), (99, 2), (3, 97)] {
+        jobs.push(("ramp-every-size".to_string(), RefArray::from_fn(&[a, b], |f, _| ((f * 13) % 31 + 1) as f64)));
     }
     // scale: spectra beyond 1 024, 4 096 and 65 536 entries (a ramp-like filling with mass in the last entries)
     for s in [vec![1030usize], vec![1601], vec![2049], vec![70, 65], vec![19, 17, 15], vec![45, 41, 39], vec![19, 17, 16, 15]] {
